@@ -36,6 +36,18 @@ Theorem T02x_dup_set_sound : forall w e e',
 Proof. exact dup_set_sound. Qed.
 Print Assumptions T02x_dup_set_sound.
 
+(* fixes.remove_duplicate_dict_keys (repaired) *)
+Theorem T02x_dup_dict_sound : forall w e e',
+  rw_dup_dict e = Some e' -> forall en tr r, eval w e en tr = Some r -> eval w e' en tr = Some r.
+Proof. exact dup_dict_sound. Qed.
+Print Assumptions T02x_dup_dict_sound.
+
+(* the dict law behind it: writes to a key that is already present can be hoisted *)
+Theorem T02x_dict_update_hoist : forall k ps E, dict_has E k = true ->
+  dict_update E ps = dict_update (match lastv k ps with Some x => dict_set E k x | None => E end) (filt k ps).
+Proof. exact dict_update_hoist. Qed.
+Print Assumptions T02x_dict_update_hoist.
+
 (* fixes.redundant_enumerate (repaired) *)
 Theorem T02x_enumerate_sound : forall w e e',
   rw_enumerate e e = Some e' ->
